@@ -35,7 +35,7 @@ DEFAULTS = {
     'attrs': 'none',           # 'none' | '1d' | '2d' | 'wronglen' | 'col' (n,1) | 'row' (1,n)
     'content': 'finite',       # 'nan_amp' | 'inf_wm' | 'nan_similar' | 'nan_template' | 'nan_features'
     'monotone': True,
-    'geometry': 'line',        # 'line' | 'grid' | 'twoshank' | 'col14' | 'linex0'
+    'geometry': 'line',        # 'line' | 'grid' | 'twoshank' | 'col14' | 'linex0' | 'line14_eps' | ...
     'channel_map': 'identity', # 'identity' | 'perm' | 'sub'
     'sample_rate': 100.0,
     'profile': None,           # per-template amplitude level permutations (list of lists) or None
@@ -97,6 +97,12 @@ def geometry(name, nc):
         # among the nearest neighbours of every channel
         pos = np.array([[14. * (i % 2), 20. * (i // 2) + 3. * (i % 2)] for i in range(nc)])
         shanks = np.array([i % 2 for i in range(nc)], dtype=np.int32)
+    elif name == 'line14_eps':
+        # one column, pitch 16; the last two sites sit 2**-18 closer: for a peak on channel 6 (7) the 12th
+        # nearest channel is 12 (13) and not 0 (1) - a difference that single precision or rounding loses
+        pos = np.array([[0., 16. * i] for i in range(nc)])
+        pos[12:, 1] -= 2.0 ** -18
+        shanks = np.zeros(nc, dtype=np.int32)
     elif name == 'col14':      # two columns, 14+ channels
         pos = np.array([[22. * (i % 2), 20. * (i // 2) + 7. * (i % 2)] for i in range(nc)])
         shanks = np.zeros(nc, dtype=np.int32)
